@@ -6,8 +6,12 @@ for l in open('/verif/properties.jsonl'):
     d = json.loads(l)
     if d['id'] == pid:
         break
-wt = "/tmp/seed-%s" % pid
-out = "/tmp/seed-%s-out" % pid
+rnd = sys.argv[2] if len(sys.argv) > 2 else ""      # round tag: "" (round 1), "2", …
+wt = "/tmp/seed%s-%s" % (rnd, pid)
+out = "/tmp/seed%s-%s-out" % (rnd, pid)
+extra = ""
+if rnd:
+    extra = " This is a later round of the exercise: the most obvious single-site mistakes have been tried already, so look beyond them — the less-travelled code paths (conversion glue between the parser, builder, datalog and protobuf layers; option plumbing; printing; rarely used entry points and constructors; error paths; boundary values; behaviour that only shows after two or three operations on the same object)."
 print(f"""You are a software engineer helping to evaluate a verification tool by mutation seeding. You work ONLY inside a scratch git worktree of a Go library (biscuit-go, Go implementation of Biscuit authorization tokens) at {wt} and an output directory {out}. Do NOT read, list or use anything under /verif or /repo (the worktree is a full copy of the library; everything you need is in it). Do not commit anything, and never use `git stash` (the stash is shared between worktrees of the same repository and other people are working in sibling worktrees): to set a change aside use `git diff > file` and `git apply -R file` / `git checkout -- .`.
 
 Environment: no network. Use these env vars for every go command: GOFLAGS=-mod=mod GOPROXY=off GOSUMDB=off GOTOOLCHAIN=local (go 1.23). The library's test suite is run with:  cd {wt} && go test -vet=off -count=1 ./...   (one datalog test, TestFamily, and samples test019 are known to fail sporadically with 'world runtime limit: timeout' because of a 2 ms default time limit; if you see exactly that, re-run to tell a flake from a real failure).
@@ -19,7 +23,7 @@ The PROPERTY that the library is supposed to satisfy (this text is all you get a
   statement: {d['statement']}
   holds for: {d['quantifier']['text']}
 
-Your task: produce up to THREE different small source changes to the library (each independent of the others, each a separate patch against the unmodified worktree) that BREAK this property while the library still compiles and the EXISTING test suite still passes (unedited). Prefer realistic mistakes a maintainer could make (an off-by-one, a dropped field, a reordered step, a missing copy, a wrong comparison, an early return, a cache that is not invalidated) over sabotage, and prefer changes that need something SPECIFIC to manifest — an unusual input, a multi-step sequence of operations, a particular interleaving, two cooperating sites that each look fine alone — over ones that ordinary use would expose at once. The three changes should break the property in different ways / at different places if possible.
+Your task: produce up to THREE different small source changes to the library (each independent of the others, each a separate patch against the unmodified worktree) that BREAK this property while the library still compiles and the EXISTING test suite still passes (unedited). Prefer realistic mistakes a maintainer could make (an off-by-one, a dropped field, a reordered step, a missing copy, a wrong comparison, an early return, a cache that is not invalidated) over sabotage, and prefer changes that need something SPECIFIC to manifest — an unusual input, a multi-step sequence of operations, a particular interleaving, two cooperating sites that each look fine alone — over ones that ordinary use would expose at once. The three changes should break the property in different ways / at different places if possible.{extra}
 
 For each change k = 1, 2, 3:
   1. Start from the unmodified worktree (git -C {wt} checkout -- . ; git -C {wt} clean -fd), make the change, save it as {out}/m<k>/patch.diff  (git -C {wt} diff > …).
